@@ -68,6 +68,19 @@ Proof.
   rewrite C. reflexivity.
 Qed.
 
+Lemma dereify_edges_loop_nil : forall ts ed, dereify_edges_loop [] ts ed = (ts, ed).
+Proof.
+  induction ts as [|t ts IH]; intros ed; [reflexivity|]. simpl. rewrite IH. reflexivity.
+Qed.
+
+Theorem dereify_edges_fixed : forall m g, agenda_empty m g = true -> closed_graph g ->
+  dereify_edges m g = Ok g.
+Proof.
+  intros m g H C. unfold agenda_empty in H. unfold dereify_edges.
+  destruct (dereify_agenda m g) as [[|e l]| | | | | | | |]; try discriminate.
+  simpl. rewrite dereify_edges_loop_nil. rewrite C. reflexivity.
+Qed.
+
 (* ------------------------------------------------------------------ *)
 (** * An interpreted tree with a root variable is a closed graph *)
 
@@ -95,32 +108,36 @@ Qed.
 (* ------------------------------------------------------------------ *)
 (** * The second pass has nothing to reify: the reify options can be struck *)
 
-Lemma normalise_strip : forall o t g, o_dereify_edges o = false ->
+Lemma normalise_strip : forall o t g,
   entering_graph o t = Ok g -> closed_graph g -> idle_on o g = true ->
   normalise o t = normalise (strip_reify o) t.
 Proof.
-  intros o t g D E C I. unfold idle_on in I. apply andb_true_iff in I. destruct I as [I1 I2].
+  intros o t g E C I. unfold idle_on in I. apply andb_true_iff in I. destruct I as [I I2].
+  apply andb_true_iff in I. destruct I as [I1 ID].
   unfold entering_graph, Pipeline.seq in E.
   unfold normalise, Pipeline.seq, canonicalise, interpret_stage, Pipeline.reify, Pipeline.dereify,
     reify_attrs, indicate, Pipeline.when in *. simpl.
   destruct (if o_canonicalize_roles o
             then match canonicalize_roles (o_model o) t with Some t' => Ok t' | None => OutOfFuel end
             else Ok t) as [t'| | | | | | | |] eqn:Ct; simpl in E; try discriminate.
-  simpl. rewrite E. simpl. rewrite D.
+  simpl. rewrite E. simpl.
   assert (R1 : (if o_reify_edges o then reify_edges (o_model o) g else Ok g) = Ok g).
   { destruct (o_reify_edges o); [|reflexivity]. simpl in I1. apply reify_edges_fixed; assumption. }
   rewrite R1. simpl.
+  assert (RD : (if o_dereify_edges o then dereify_edges (o_model o) g else Ok g) = Ok g).
+  { destruct (o_dereify_edges o); [|reflexivity]. simpl in ID. apply dereify_edges_fixed; assumption. }
+  rewrite RD. simpl.
   assert (R2 : (if o_reify_attributes o then reify_attributes g else Ok g) = Ok g).
   { destruct (o_reify_attributes o); [|reflexivity]. simpl in I2. apply reify_attributes_fixed; assumption. }
   rewrite R2. reflexivity.
 Qed.
 
 (* every later stage reads the other options only *)
-Theorem pipeline_strip : forall o t g, o_dereify_edges o = false ->
+Theorem pipeline_strip : forall o t g,
   entering_graph o t = Ok g -> closed_graph g -> idle_on o g = true ->
   pipeline o t = pipeline (strip_reify o) t.
 Proof.
-  intros o t g D E C I. pose proof (normalise_strip o t g D E C I) as N.
+  intros o t g E C I. pose proof (normalise_strip o t g E C I) as N.
   unfold pipeline, pre_format, Pipeline.seq.
   change (o_triples (strip_reify o)) with (o_triples o).
   destruct (o_triples o); rewrite N; reflexivity.
@@ -130,10 +147,10 @@ Qed.
 (** * --reify-edges / --reify-attributes (plus any formatting) *)
 
 Lemma reify_only_fields : forall o, reify_only o = true ->
-  o_canonicalize_roles o = false /\ o_dereify_edges o = false /\ o_triples o = false /\ o_check o = false.
+  o_canonicalize_roles o = false /\ o_triples o = false /\ o_check o = false.
 Proof.
   intros o P. unfold reify_only in P.
-  destruct (plain_fields _ P) as [F1 [_ [F3 [_ [_ [_ [_ [_ [F9 F10]]]]]]]]].
+  destruct (plain_fields _ P) as [F1 [_ [_ [_ [_ [_ [_ [_ [F9 F10]]]]]]]]].
   simpl in *. auto.
 Qed.
 
@@ -147,12 +164,12 @@ Proof.
   apply andb_true_iff in H. destruct H as [Wt Wl].
   split; [exact Wt|].
   destruct (interpret (o_model o) t1) as [g1| | | | | | | |] eqn:E; try discriminate.
-  destruct (reify_only_fields o P) as [Fc [Fd [Tr Ck]]].
+  destruct (reify_only_fields o P) as [Fc [Tr Ck]].
   assert (NV : node_var (troot t1) <> ANone).
   { unfold root_has_var in RV. intro X. rewrite X in RV. discriminate. }
   assert (EG : entering_graph o t1 = Ok g1).
   { unfold entering_graph, Pipeline.seq, canonicalise, Pipeline.when, interpret_stage. rewrite Fc. simpl. exact E. }
-  rewrite (pipeline_strip o t1 g1 Fd EG (interpret_closed _ _ _ E NV) I).
+  rewrite (pipeline_strip o t1 g1 EG (interpret_closed _ _ _ E NV) I).
   assert (Tr' : o_triples (strip_reify o) = false) by exact Tr.
   rewrite (pipeline_tree _ t1 Tr').
   rewrite (plain_pre_format (strip_reify o) t1 P Wl). simpl.
@@ -168,7 +185,7 @@ Theorem reify_idempotent : forall o s out code, reify_only o = true ->
   run o [] s = Ok (out, code) -> run o [] out = Ok (out, code).
 Proof.
   intros o s out code P F R.
-  destruct (reify_only_fields o P) as [_ [_ [Tr Ck]]].
+  destruct (reify_only_fields o P) as [_ [Tr Ck]].
   apply (stream_idempotent_from_trees o s out code Tr Ck); [|exact R].
   induction F as [|t l [t1 [Q H]] F IH]; constructor; [|exact IH].
   exists t1. destruct (reify_tree_fixed o t1 P H) as [W X]. auto.
@@ -259,7 +276,7 @@ Proof.
   apply andb_true_iff in H. destruct H as [Wl RV].
   destruct (interpret (o_model o) t1c) as [g1| | | | | | | |] eqn:E; try discriminate.
   unfold reify_canon_only in P.
-  destruct (plain_rest_fields _ P) as [_ [Fd [_ [_ [_ [_ [_ [Tr Ck]]]]]]]]. simpl in Fd, Tr, Ck.
+  destruct (plain_rest_fields _ P) as [_ [_ [_ [_ [_ [_ [_ [Tr Ck]]]]]]]]. simpl in Tr, Ck.
   assert (NV : node_var (troot t1c) <> ANone).
   { unfold root_has_var in RV. intro X. rewrite X in RV. discriminate. }
   assert (EG : entering_graph o t1 = Ok g1).
@@ -267,7 +284,7 @@ Proof.
     unfold canon_of in Cn. destruct (o_canonicalize_roles o).
     - rewrite Cn. simpl. exact E.
     - inversion Cn. subst t1c. simpl. exact E. }
-  rewrite (pipeline_strip o t1 g1 Fd EG (interpret_closed _ _ _ E NV) I).
+  rewrite (pipeline_strip o t1 g1 EG (interpret_closed _ _ _ E NV) I).
   assert (Tr' : o_triples (strip_reify o) = false) by exact Tr.
   rewrite (pipeline_tree _ t1 Tr').
   assert (Cn' : canon_of (strip_reify o) t1 = Some t1c) by exact Cn.
